@@ -23,28 +23,28 @@ META = {
 ORD = {"cmp", "partial_cmp", "lt", "le", "gt", "ge", "min", "max", "min_by", "min_by_key", "max_by", "max_by_key", "sort", "sort_by", "sort_by_key",
        "sort_unstable", "sort_unstable_by", "sort_unstable_by_key", "binary_search", "binary_search_by", "binary_search_by_key", "is_sorted", "dedup", "clamp"}
 
-# (root function contains, callee) -> reason
+# Frozen census tables.  Keyed by (source file, operation) with the number of sites reviewed there, not by
+# function names: renaming or splitting an internal function keeps the verdict, a NEW site in the file exceeds
+# the reviewed count and is reported.
+# (file, callee) -> (reviewed count, reason)
 ORD_TABLE = {
-    ("egraph::EGraph::<L, N>::dump", "sort"): "debug dump: slots of a class are sorted for display only (class-internal fresh names)",
-    ("egraph::EGraph::<L, N>::dump", "sort_by_key"): "debug dump: classes sorted by Id",
-    ("proven_proven_pre_shape", "min_by_key"): "key is the occurrence vector of the name-free weak shape (N1)",
-    ("group::find_lowest_nonstab", "min"): "base point of the stabiliser chain: slots of a class are class-internal fresh names; any base point gives the same group",
-    ("slotmap::SlotMap::check", "sort_by_key"): "test-only representation check",
-    ("slotmap::SlotMap::search", "binary_search_by_key"): "representation invariant of SlotMap (C19): the order is internal, equality/lookup do not depend on it",
+    ("src/egraph/mod.rs", "sort"): (1, "debug dump: slots of a class are sorted for display only (class-internal fresh names)"),
+    ("src/egraph/mod.rs", "sort_by_key"): (1, "debug dump: classes sorted by Id"),
+    ("src/egraph/mod.rs", "min_by_key"): (1, "canonical group variant: the key is the occurrence vector of the name-free weak shape (rule N1 checks exactly that)"),
+    ("src/group/mod.rs", "min"): (1, "base point of the stabiliser chain: slots of a class are class-internal fresh names; any base point gives the same group"),
+    ("src/slotmap.rs", "sort_by_key"): (1, "test-only representation check"),
+    ("src/slotmap.rs", "binary_search_by_key"): (1, "representation invariant of SlotMap (C19): the order is internal, equality/lookup do not depend on it"),
 }
 
-# root function contains -> reason (iteration over a sorted slot set whose body invents names)
+# file -> (reviewed count of name-inventing iterations over sorted slot sets, reason)
 ITER_TABLE = {
-    "egraph::EGraph::<L, N>::enodes_applied": "fresh names for bound/redundant/uncovered slots: which fresh name goes to which slot is unobservable up to renaming of fresh names",
-    "rebuild::<impl egraph::EGraph<L, N>>::handle_pending": "fresh fill-in for redundant slots of a re-inserted node",
-    "egraph::EGraph::<L, N>::synify_app_id": "fresh fill-in of syntactic slots",
-    "explain::front::<impl egraph::EGraph<L, N>>::associate_necessaries": "fresh names inside a proof step",
-    "explain::proof::Equation::apply_slotmap_fresh": "fresh names inside a proof step",
-    "explain::proof::TransitivityProof::check": "fresh names inside a proof step",
-    "explain::registry::normalize_eq": "proof registry key: numbering follows Slot order, so two renamings of one equation may get different keys; this only weakens proof sharing, a cached proof is returned for an equal key only",
-    "rewrite::ematch::final_subst": "fresh names for slots the pattern does not mention",
-    "slotmap::SlotMap::bijection_from_fresh_to": "fresh names for a set of slots",
-    "slotmap::SlotMap::compose_fresh": "fresh fill-in, one per key",
+    "src/egraph/mod.rs": (2, "enodes_applied / synify_app_id: fresh names for bound, redundant, uncovered or syntactic slots; which fresh name goes to which slot is unobservable up to renaming of fresh names"),
+    "src/egraph/rebuild.rs": (1, "work-list handler: fresh fill-in for redundant slots of a re-inserted node"),
+    "src/explain/front.rs": (1, "fresh names inside a proof step"),
+    "src/explain/proof.rs": (3, "fresh names inside proof steps (Equation::apply_slotmap_fresh, TransitivityProof::check x2)"),
+    "src/explain/registry.rs": (2, "proof registry key: numbering follows Slot order, so two renamings of one equation may get different keys; this only weakens proof sharing, a cached proof is returned for an equal key only"),
+    "src/rewrite/ematch.rs": (1, "final_subst: fresh names for slots the pattern does not mention"),
+    "src/slotmap.rs": (2, "bijection_from_fresh_to / compose_fresh: fresh names for a set of slots / fresh fill-in, one per key"),
 }
 
 
@@ -110,6 +110,7 @@ def n3(ctx):
 def n4(ctx):
     crate = ctx.lib()
     n = 0
+    seen = {}
     for b in crate.bodies.values():
         root = crate.root_of(b)
         if root.auto_derived or (root.file or "").endswith("tst.rs"):
@@ -121,11 +122,18 @@ def n4(ctx):
             if not re.search(r"slot::Slot|SlotMap|AppliedId|\bL\b|VecSet|types::Id\b", tys):
                 continue
             n += 1
-            why = [w for (fn_, cal), w in ORD_TABLE.items() if fn_ in root.id and cal == c.callee.name]
-            ctx.check(bool(why), "ord:%s:%s" % (C.fkey(root), c.callee.name), "%s uses %s on slot-carrying data — %s" % (C.short(root.id), c.callee.name, why[0] if why else ""),
-                      "unreviewed name-order dependence: %s calls %s on a type that contains slots (%s); its result can differ between two inputs that are renamings of each other" % (C.short(root.id), c.callee.name, tys[:80]), where_of(b, c.bb))
+            seen.setdefault((b.file, c.callee.name), []).append((root, b, c, tys))
+    for (file, cal), sites in sorted(seen.items(), key=lambda x: (str(x[0][0]), x[0][1])):
+        ent = ORD_TABLE.get((file, cal))
+        if ent is not None and len(sites) <= ent[0]:
+            ctx.ok("ord:%s:%s" % (file, cal), "%d reviewed use(s) of %s on slot-carrying data in %s — %s" % (len(sites), cal, file, ent[1]), where_of(sites[0][1], sites[0][2].bb))
+        else:
+            root, b, c, tys = sites[-1]
+            ctx.bad("ord:%s:%s" % (file, cal), "unreviewed name-order dependence: %s in %s calls %s on a type that contains slots (%s); %d site(s) in this file, %d reviewed. Its result can differ between two inputs that are renamings of each other" % (
+                C.short(root.id), file, cal, tys[:80], len(sites), ent[0] if ent else 0), where_of(b, c.bb))
     ctx.floor("order-sensitive calls on slot-carrying types", n, 5)
     m = 0
+    seen = {}
     for b in crate.bodies.values():
         root = crate.root_of(b)
         for lp in C.iterator_loops(b):
@@ -140,9 +148,15 @@ def n4(ctx):
             if not inv:
                 continue
             m += 1
-            why = [w for k, w in ITER_TABLE.items() if k in root.id]
-            ctx.check(bool(why), "iter:%s:%s" % (C.fkey(root), "+".join(inv)), "%s invents names while iterating a sorted slot set — %s" % (C.short(root.id), why[0] if why else ""),
-                      "unreviewed name-order dependence: %s iterates a slot set in Slot order and calls Slot::%s in the loop body; which invented name goes to which slot depends on how the user's names sort" % (C.short(root.id), "/".join(inv)), where_of(b, sb))
+            seen.setdefault(b.file, []).append((root, b, sb, inv))
+    for file, sites in sorted(seen.items(), key=lambda x: str(x[0])):
+        ent = ITER_TABLE.get(file)
+        if ent is not None and len(sites) <= ent[0]:
+            ctx.ok("iter:%s" % file, "%d reviewed name-inventing iteration(s) over sorted slot sets in %s — %s" % (len(sites), file, ent[1]), where_of(sites[0][1], sites[0][2]))
+        else:
+            root, b, sb, inv = sites[-1]
+            ctx.bad("iter:%s" % file, "unreviewed name-order dependence: %s in %s iterates a slot set in Slot order and calls Slot::%s in the loop body (%d such loops in this file, %d reviewed); which invented name goes to which slot depends on how the user's names sort" % (
+                C.short(root.id), file, "/".join(inv), len(sites), ent[0] if ent else 0), where_of(b, sb))
     ctx.floor("name-inventing iterations over slot sets", m, 6)
 
 
